@@ -52,7 +52,7 @@ SCOPES = {
     "tree": dict(
         fmts=["md5", "xxh64"], files=[P("a"), P("d", "b"), P("d", "n")], dirs=[P("d"), P("e")],
         init={P("a"): "c1", P("d"): "DIR", P("d", "b"): "c2", P("e"): "DIR"}, contents=["c1", "c2"],
-        roots=[P()], fmtchoices=[["md5"], ["xxh64"]], pats=[()], sf=[frozenset({P("d", "b")})],
+        roots=[P()], fmtchoices=[["md5"], ["xxh64"]], pats=[()], sf=[frozenset({P("d", "b")}), frozenset({P("d")}), frozenset({P("a"), P("d")})],
         ops=["alter", "delete", "mkdir", "create", "createsf", "verify", "diff", "verifysf"], maxgens=2, maxops=5, keepsnap=False,
     ),
     # directory hashes in all six formats and their combinations, renames / edits / adds / removes at two levels
@@ -67,7 +67,7 @@ SCOPES = {
         fmts=["md5", "sha1"], files=[P("a"), P("d", "b")], dirs=[P("d")],
         init={P("a"): "c1", P("d"): "DIR", P("d", "b"): "c2"}, contents=["c1", "c2"],
         roots=[P()], fmtchoices=[["md5"], ["sha1"], ["md5", "sha1"]], pats=[()], sf=[frozenset({P("d", "b")})],
-        ops=["alter", "delete", "create", "createsf", "verify", "diff", "verifysf", "flatten", "verifypl", "info", "infosf", "hash", "verifydh", "verifydhco", "nodh"],
+        ops=["alter", "delete", "create", "createsf", "verify", "diff", "verifysf", "flatten", "verifypl", "info", "infosf", "hash", "verifydh", "verifydhco", "nodh", "xsdcheck"],
         maxgens=3, maxops=6, keepsnap=True,
     ),
     # flatten and verify -pl over flat histories with changing formats, failed entries, partial -sf generations
@@ -91,9 +91,17 @@ SCOPES = {
         fmts=["md5"], files=[P("a"), P("d", "b"), P("d", "e", "c"), P("d2", "f")], dirs=[P("d"), P("d", "e"), P("d2")],
         init={P("a"): "c1", P("d"): "DIR", P("d", "b"): "c1", P("d", "e"): "DIR", P("d", "e", "c"): "c1", P("d2"): "DIR", P("d2", "f"): "c1"},
         contents=["c1", "c2"], roots=[P(), P("d"), P("d", "e"), P("d2")], fmtchoices=[["md5"]], pats=[()],
-        sf=[frozenset({P("d", "e", "c")}), frozenset({P("d", "b")}), frozenset({P("a"), P("d2", "f")})],
+        sf=[frozenset({P("d", "e", "c")}), frozenset({P("d", "b")}), frozenset({P("a"), P("d2", "f")}), frozenset({P("d"), P("d2", "f")})],
         ops=["alter", "delete", "create", "createsf", "verify", "diff", "nodh"], maxgens=3, maxops=5, keepsnap=False,
         mutable=[P("a"), P("d", "e", "c")],
+    ),
+    # removal of a whole directory that holds a nested history, and its re-creation
+    "rmt": dict(
+        fmts=["md5"], files=[P("a"), P("d", "b")], dirs=[P("d")],
+        init={P("a"): "c1", P("d"): "DIR", P("d", "b"): "c1"}, contents=["c1", "c2"],
+        roots=[P(), P("d")], fmtchoices=[["md5"]], pats=[()], sf=[],
+        ops=["alter", "rmtree", "mkdir", "create", "verify", "diff"], maxgens=4, maxops=6, keepsnap=False,
+        mutable=[P("d"), P("d", "b")],
     ),
     # a chain of four nested histories (root > d > d/e > d/e/g): routing and references beyond grandchildren
     "deep": dict(
@@ -118,6 +126,21 @@ SCOPES = {
         fmts=["md5"], files=[P("a")], dirs=[P("e")], init={P("a"): "c1", P("e"): "DIR"}, contents=["c1", "c2"],
         roots=[P()], fmtchoices=[["md5"]], pats=[()], sf=[],
         ops=["alter", "delete", "mkdir", "create", "verify", "diff", "verifysf"], maxgens=2, maxops=5, keepsnap=False,
+    ),
+    # nested histories sealed with several formats at once (the child's root hash copied into the parent, per format)
+    "nest2f": dict(
+        fmts=["md5", "xxh64"], files=[P("a"), P("d", "b"), P("d", "e", "c")], dirs=[P("d"), P("d", "e")],
+        init={P("a"): "c1", P("d"): "DIR", P("d", "b"): "c1", P("d", "e"): "DIR", P("d", "e", "c"): "c2"},
+        contents=["c1", "c2"], roots=[P(), P("d"), P("d", "e")], fmtchoices=[["md5"], ["md5", "xxh64"], ["xxh64"]], pats=[()], sf=[],
+        ops=["alter", "create", "verify"], maxgens=4, maxops=6, keepsnap=False, mutable=[P("a"), P("d", "e", "c")],
+    ),
+    # ignore patterns with verify -dh (patterns given on the command line or in a file, not recorded)
+    "igndh": dict(
+        fmts=["md5"], files=[P("a"), P("x"), P("d", "x"), P("d", "b")], dirs=[P("d")],
+        init={P("a"): "c1", P("d"): "DIR", P("d", "b"): "c1"}, contents=["c1", "c2"],
+        roots=[P()], fmtchoices=[["md5"]], pats=[(), ("n:x",)], sf=[],
+        ops=["alter", "delete", "create", "verify", "diff", "verifydh"], maxgens=2, maxops=6, keepsnap=True,
+        mutable=[P("x"), P("d", "x"), P("a")], patnames={"n:x": ["x"]},
     ),
     # ignore patterns: a base-name pattern, a glob class, applied to files and a directory
     "ign": dict(
